@@ -22,6 +22,7 @@ def check(ctx):
     ctx.explanation += (" R9 the delivery bundle: queues drained to their end with the registry filtered in place, closed = closed and empty, "
                         "stale sets kept unless cancelable, shared sets fanned out to every parent, one sampling filter at the choke point, a scope "
                         "records iff any parent is sampled, setting a local parent opens a scope, no-op only without a recording parent.")
+    ctx.explanation += (' Round 5: R3 also -- no field that identifies or times a built SpanRecord is assigned after construction; R1 also -- in fastrace::span no consumer of issue_collect_token() selects among the items.')
     ctx.not_decided = ("uniqueness / non-zero of generated ids as values (collisions of random prefixes, counter wrap-around after 2^32 ids: value level); that the "
                        "tree is right for every nesting (the rules show each link is built from the right source, not "
                        "that the source holds the right runtime value).")
